@@ -686,7 +686,9 @@ func (dr *dirRepo) gc() error {
 			} {
 				err := os.Remove(dir)
 				if err != nil && !errors.Is(err, fs.ErrNotExist) {
+					// stop at the first failure, index.json and oci-layout must remain when blobs could not be removed
 					errs = append(errs, err)
+					break
 				}
 			}
 			return errors.Join(errs...)
